@@ -94,8 +94,10 @@ for _n in range(5):
 # ---------------------------------------------------------------- header.rs
 HARNESSES.update({
     'k_mb2hdr_magic_value': _h('header.rs', 'full', 'constants', ['MAGIC'], ['C20']),
+    # also C08: on compiled dev-profile code an un-wrapped sum in the checksum arithmetic is an overflow failure for
+    # lengths >= 2^32 - MAGIC, i.e. exactly the inputs where dev and release builds diverge (seed w9-C08-m1)
     'k_mb2hdr_checksum_law_all': _h('header.rs', 'full', 'all u32 magic x {I386, MIPS32} x all u32 length',
-                                    ['Multiboot2BasicHeader::calc_checksum'], ['C10']),
+                                    ['Multiboot2BasicHeader::calc_checksum'], ['C10', 'C08']),
     'k_mb2hdr_checksum_law_real_magic_all_lengths': _h('header.rs', 'full', 'magic 0xE85250D6 x both archs x all u32 length',
                                                        ['Multiboot2BasicHeader::calc_checksum'], ['C10']),
     'k_mb2hdr_checksum_law_no_wrap': _h('header.rs', 'full', 'all inputs with magic + arch + length <= 2^32',
@@ -103,7 +105,7 @@ HARNESSES.update({
     'k_mb2hdr_verify_checksum_iff': _h('header.rs', 'full', 'all four words with magic + arch + length <= 2^32',
                                        ['Multiboot2BasicHeader::verify_checksum'], ['C10']),
     'k_mb2hdr_verify_checksum_iff_all': _h('header.rs', 'full', 'all four header words (arch in {0,4})',
-                                           ['Multiboot2BasicHeader::verify_checksum'], ['C10']),
+                                           ['Multiboot2BasicHeader::verify_checksum'], ['C10', 'C08']),
     'k_mb2hdr_basic_new': _h('header.rs', 'full', 'both archs, lengths with no u64 wrap', ['Multiboot2BasicHeader::new'], ['C10', 'C07']),
     'k_mb2hdr_basic_new_all_lengths': _h('header.rs', 'full', 'both archs x all u32 length', ['Multiboot2BasicHeader::new'], ['C10']),
     'k_mb2hdr_set_size': _h('header.rs', 'full', 'both archs, all sizes with no u64 wrap',
